@@ -327,7 +327,11 @@ func runC21(c *fw.Ctx, idx int) {
 	} else {
 		cfgDesc += "snake "
 	}
-	switch c.Rng.Intn(3) {
+	switch c.Rng.Intn(4) {
+	case 3:
+		// every field without an omit tag of its own is left out; fields tagged omit_never / omit_empty / omit_zero are judged by their tag
+		cfg.Iterator.DefaultFieldOmitBehavior = configuration.OmitFieldAlways
+		cfgDesc += "omit-always "
 	case 0:
 		cfg.Iterator.DefaultFieldOmitBehavior = configuration.OmitFieldNever
 		cfgDesc += "omit-never "
